@@ -343,6 +343,12 @@ def _via(rng, world, node_i):
 
 
 def _draw_fields(rng, world, ev):
+    if ev["op"] in ("add", "update_dict") and rng.random() < 0.12:
+        ev["vt"] = rng.choice(["int64", "uint64", "uint32", "int32"])
+    if ev["op"] == "update_dict" and rng.random() < 0.3:
+        ev["as_counter"] = True
+    if ev["op"] == "update_list" and rng.random() < 0.15:
+        ev["as_tuple"] = True
     if world.fam in LOG:
         ev["ds"] = rng.getrandbits(31)
         # buggify: most runs meet a refill; pointer near the end of the batch
